@@ -14,6 +14,7 @@ use std::collections::BTreeMap;
 
 pub mod edid_spec;
 pub mod gpu;
+pub mod sound;
 
 thread_local! {
     static SPIN: RefCell<Option<Box<dyn FnMut()>>> = const { RefCell::new(None) };
@@ -97,6 +98,12 @@ pub fn run(ctx: &Ctx) -> (Vec<Case>, String, bool, BTreeMap<String, String>) {
     all.extend(par_cases(ctx, "C20", "gpu", n_gpu, |i, id| gpu::one_case(ctx, i, id, false)));
     let n_gpu_bad = ctx.tier.pick(300, 15_000);
     all.extend(par_cases(ctx, "C20", "gpu-malformed", n_gpu_bad, |i, id| gpu::one_case(ctx, i, id, true)));
+    // the known finding F10 is generated deterministically in both tiers
+    all.extend(par_cases(ctx, "C20", "snd-f10", 4, |i, id| sound::one_case(ctx, i, id, "snd-f10")));
+    let n_snd = ctx.tier.pick(600, 40_000);
+    all.extend(par_cases(ctx, "C20", "snd", n_snd, |i, id| sound::one_case(ctx, i, id, "snd")));
+    let n_snd_bad = ctx.tier.pick(300, 15_000);
+    all.extend(par_cases(ctx, "C20", "snd-malformed", n_snd_bad, |i, id| sound::one_case(ctx, i, id, "snd-malformed")));
     virtio_drivers::verif_hooks::set_spin_hook(None);
     let rule = "gpu: random histories of public operations (resolution, get_edid, setup_framebuffer, change_resolution, flush, setup_cursor, move_cursor, drop) against a reference GPU that decodes every chain against the specification structures, with forced non-success responses, short responses and DMA allocation faults; non-trivial = at least one operation succeeded and changed driver state (framebuffer or cursor attached, or a flush completed)".to_string();
     (all, rule, false, BTreeMap::new())
